@@ -53,7 +53,7 @@ var MutationKinds = []string{
 	"dir-wrong-location-type", "dir-wrong-location-enumvalue", "dir-wrong-location-field", "dir-wrong-location-arg", "dir-wrong-location-inputfield",
 	"dir-unknown-arg-type", "dir-unknown-arg-field", "dir-uncoercible-arg-type", "dir-uncoercible-arg-field", "dir-uncoercible-arg-enumvalue", "dir-uncoercible-arg-null", "dir-uncoercible-arg-input-field", "dir-unknown-arg-noargs", "dir-wrong-location-dirarg-nodefault", "dir-unknown-arg-dirarg-nodefault",
 	// R8 directive definition cycles
-	"dir-cycle-self", "dir-cycle-two", "dir-cycle-lasso", "dir-cycle-self-inputfield-only", "dir-cycle-two-inputfield-only", "ref-directive-named-like-type", "schema-ext-dir-no-roots", "iface-shared-field-second-unsatisfied",
+	"dir-cycle-self", "dir-cycle-two", "dir-cycle-lasso", "dir-cycle-self-inputfield-only", "dir-cycle-two-inputfield-only", "input-default-needs-itself", "input-default-needs-itself-by-extension", "ref-directive-named-like-type", "schema-ext-dir-no-roots", "iface-shared-field-second-unsatisfied",
 }
 
 func ruleOf(kind string) string {
@@ -708,6 +708,14 @@ func Mutate(t *rapid.T, base *hx.Schema, kind string) (s *hx.Schema, m Mutation,
 	case "dir-cycle-self":
 		m.Tail = "directive @loop(a: Int @loop) on INPUT_FIELD_DEFINITION | ARGUMENT_DEFINITION"
 		m.Names, m.Position = []string{"loop"}, "directive"
+	case "input-default-needs-itself":
+		// a default that can only be filled in by filling itself in (directly, or through a second type)
+		m.Tail = []string{"input ZqLoopA { x: Int a: ZqLoopA = {} }", "input ZqLoopA { b: ZqLoopB = {} }\ninput ZqLoopB { a: ZqLoopA = {} }"}[pick(2, "shape")]
+		m.Names, m.Position = []string{"ZqLoopA", "ZqLoopB"}, "input"
+	case "input-default-needs-itself-by-extension":
+		// the member that closes the loop arrives in an extend block
+		m.Tail = []string{"input ZqLoopA { x: Int }\nextend input ZqLoopA { a: ZqLoopA = {} }", "input ZqLoopA { x: Int }\ninput ZqLoopB { a: ZqLoopA = {} }\nextend input ZqLoopA { b: ZqLoopB = {} }"}[pick(2, "shape")]
+		m.Names, m.Position = []string{"ZqLoopA", "ZqLoopB"}, "input"
 	case "dir-cycle-self-inputfield-only":
 		// (ggql takes the arguments of a directive definition for input field definitions: a cycle
 		// needs no ARGUMENT_DEFINITION among its locations)
